@@ -952,6 +952,19 @@ axiom('mcol.at', forall([_M, _i, _j], T.rat(mcol(_M, _j), _i) == mat_at(_M, _i, 
       ['mcol'], 'numpy')
 
 
+@reg('np.atleast_2d')
+def _atleast_2d(lib, run, recv, args, kw):
+    a = args[0]
+    if isinstance(a, MatV):
+        return a
+    if isinstance(a, SeqV) and a.kind == 'R':
+        return MatV(row1(a.term))         # a 1-D array becomes one row
+    if isinstance(a, (Num, BoolV)):
+        from .liblinalg import mat11
+        return MatV(mat11(real(a)))
+    raise Unsupported('np.atleast_2d(%r)' % (a,))
+
+
 @reg('np.squeeze')
 def _squeeze(lib, run, recv, args, kw):
     """drops axes of length one: the rank of the result depends on the shape (path fork)"""
@@ -1038,4 +1051,9 @@ axiom('card.def', forall([_sq], z3.And(card(_sq) >= 0, card(_sq) <= T.alen(_sq),
 
 @reg('np.isclose')
 def _isclose(lib, run, recv, args, kw):
-    return BoolV(F('isclose', Real, Real, Bool)(real(args[0]), real(args[1])))
+    from .libnp import closemask, isclosef
+    if kw:
+        raise Unsupported('np.isclose with explicit tolerances')
+    if isinstance(args[0], SeqV) and args[0].kind == 'R' and isinstance(args[1], (Num, BoolV)):
+        return SeqV('B', closemask(args[0].term, real(args[1])))
+    return BoolV(isclosef(real(args[0]), real(args[1])))
